@@ -4,6 +4,8 @@
 set -u
 cd "$(dirname "$0")/.."
 B=ext-$1
+if [ -n "$(git status --porcelain --untracked-files=no | grep -v "^ M evidence/")" ]; then echo "working tree not clean: commit first"; git status --short --untracked-files=no | head; exit 2; fi
+git checkout HEAD -- evidence 2>/dev/null
 git merge --no-ff --no-commit $B > /var/tmp/merge-$1.log 2>&1
 # bookkeeping files: take ours, regenerate below
 for f in lean/theorems.json lean/CnvVerif/Props/All.lean lean/generated.lock.json; do
